@@ -50,24 +50,38 @@ package header
 // Proxy-Authorization never travels further - and nothing else is added or
 // altered; a field that is neither hop-by-hop nor nominated by a Connection
 // field (C01: every end-to-end field) stays, with the same values.
-//@ pred nominated(h http.Header, k string) = ("Connection" in h) && exists i int, j int {splitAt(h["Connection"][i], ",", j)} :: 0 <= i && i < len(h["Connection"]) && 0 <= j && j < splitN(h["Connection"][i], ",") && canon(trimSpace(splitAt(h["Connection"][i], ",", j))) == k
+//@ pred connVal(h http.Header, v string) = ("Connection" in h) && exists i int {h["Connection"][i]} :: 0 <= i && i < len(h["Connection"]) && h["Connection"][i] == v
+//@ pred nominated(h http.Header, k string) = exists v string, j int {splitAt(v, ",", j)} :: connVal(h, v) && 0 <= j && j < splitN(v, ",") && canon(trimSpace(splitAt(v, ",", j))) == k
+// (delSet: how often a key was deleted because a Connection field names them - an explicit
+// ghost set maintained per iteration, so that no invariant needs a negated
+// existential)
+//@ ghost var delSet(string) int
+//@ ghost var witV(string) string
+//@ ghost var witJ(string) int
 //@ func removeHopByHopHeaders
 //@ property C06 C01 C02
 //@ requires header != nil
-//@ modifies header[*], elems(string)
+//@ modifies header[*], elems(string), delSet, witV, witJ
 //@ ensures forall k string :: isHopByHop(k) ==> !(k in header)
 //@ ensures forall k string :: (k in header) ==> old(k in header) && header[k] == old(header[k])
 //@ ensures forall k string :: old(k in header) && !isHopByHop(k) && !old(nominated(header, k)) ==> (k in header)
 //@ loop 0:
 //@   invariant forall k string :: (k in header) ==> old(k in header) && header[k] == old(header[k])
-//@   invariant forall k string :: old(k in header) && !old(nominated(header, k)) ==> (k in header)
+//@   invariant forall k string {delSet(k)} :: old(k in header) && delSet(k) == old(delSet(k)) ==> (k in header)
+//@   invariant forall k string {delSet(k)} :: delSet(k) != old(delSet(k)) ==> old(connVal(header, now(witV(k)))) && 0 <= witJ(k) && witJ(k) < splitN(witV(k), ",") && canon(trimSpace(splitAt(witV(k), ",", witJ(k)))) == k
+//@   invariant forall k string {delSet(k)} :: delSet(k) >= old(delSet(k))
 //@   invariant (old("Connection" in header) ==> rangeover == old(header["Connection"])) && (!old("Connection" in header) ==> len(rangeover) == 0)
 //@   invariant forall i int {rangeover[i]} :: 0 <= i && i < len(rangeover) ==> rangeover[i] == old(rangeover[i])
 //@ loop 1:
+//@   ghostset delSet(canon(trimSpace(rangeover[rangeindex]))) := delSet(canon(trimSpace(rangeover[rangeindex]))) + 1
+//@   ghostset witV(canon(trimSpace(rangeover[rangeindex]))) := vs
+//@   ghostset witJ(canon(trimSpace(rangeover[rangeindex]))) := rangeindex
 //@   invariant forall k string :: (k in header) ==> old(k in header) && header[k] == old(header[k])
-//@   invariant forall k string :: old(k in header) && !old(nominated(header, k)) ==> (k in header)
+//@   invariant forall k string {delSet(k)} :: old(k in header) && delSet(k) == old(delSet(k)) ==> (k in header)
+//@   invariant forall k string {delSet(k)} :: delSet(k) != old(delSet(k)) ==> old(connVal(header, now(witV(k)))) && 0 <= witJ(k) && witJ(k) < splitN(witV(k), ",") && canon(trimSpace(splitAt(witV(k), ",", witJ(k)))) == k
+//@   invariant forall k string {delSet(k)} :: delSet(k) >= old(delSet(k))
 //@   invariant len(rangeover) == splitN(vs, ",") && forall j int {rangeover[j]} :: 0 <= j && j < len(rangeover) ==> rangeover[j] == splitAt(vs, ",", j)
-//@   invariant old("Connection" in header) && exists i int :: 0 <= i && i < old(len(header["Connection"])) && vs == old(header["Connection"][i])
+//@   invariant old(connVal(header, vs))
 //@ loop 2:
 //@   invariant forall k string :: (k in header) ==> old(k in header) && header[k] == old(header[k])
 //@   invariant forall j int :: 0 <= j && j < 9 ==> (j <= rangeindex ==> !(hopByHopHeaders[j] in header))
